@@ -972,9 +972,15 @@ where
         let res = ready!(this.inner.poll(cx));
 
         // Only an entry that was just fetched from the origin is written on insertion; a memory or disk hit is not.
+        //
+        // A caller that was waiting is answered by whatever insertion of the key came first - the fetch, or an explicit
+        // insert - and may be polled much later. By then a newer value can have been inserted (and written): an entry
+        // that is no longer the resident one must not be written again behind it. (A disk-only record is never
+        // resident.)
         if let Ok(entry) = res.as_ref()
             && entry.source() == Source::Outer
             && entry.properties().location() != Location::InMem
+            && (entry.properties().location() == Location::OnDisk || !entry.is_outdated())
             && *this.policy == HybridCachePolicy::WriteOnInsertion
             && this.store.is_enabled()
             && !this.ctx.throttled.load(Ordering::Relaxed)
